@@ -8,7 +8,7 @@ wt=/tmp/seed_$name; out=$wt/seed_out
 [ -f $out/patch.diff ] || { echo "no patch"; exit 2; }
 cd $wt && git checkout -q -- src && git apply --check $out/patch.diff || { echo "patch does not apply"; exit 2; }
 export PYTHONDONTWRITEBYTECODE=1
-run_tests(){ PYTHONPATH=$wt/src /venv/bin/python -m pytest -q -p no:cacheprovider -rA $tests 2>&1 | grep -E "^(PASSED|FAILED|ERROR)" | sort; }
+run_tests(){ PYTHONPATH=$wt/src unshare -n sh -c 'ip link set lo up; exec "$@"' sh /venv/bin/python -m pytest -q -p no:cacheprovider -rA $tests 2>&1 | grep -E "^(PASSED|FAILED|ERROR)" | sort; }
 base=$(run_tests)
 PYTHONPATH=$wt/src /venv/bin/python -W ignore $out/demo.py >/dev/null 2>&1; d0=$?
 git apply $out/patch.diff
